@@ -36,6 +36,9 @@ func H_C02_twice() {
 		CastValuesToFloat(vChoose(2) == 1)
 		CastValuesToBool(vChoose(2) == 1)
 		vC02cast(root, vDecOpts{attrPrefix: "-", textKey: "#text"}, vChoose(2) == 1, true)
+		// the original document once more, so that the last text cast under these options is the
+		// first one cast under the next
+		_, _ = NewMapXml([]byte(vRenderElem(&vXElem{name: "r", items: []vXItem{{kind: 1, text: t}}})), true)
 	}
 	vResetCastOpts()
 	// value escaping requested, then the decoder switch set to what it already is
@@ -270,8 +273,8 @@ func H_C11_twice() {
 		vAssert(m.Remove("a.b") == nil && m.SetValueForPath(map[string]interface{}{}, "a.b") == nil, "twice: remove and re-create")
 	}
 	mark := vMark(map[string]interface{}(m))
-	err := m.SetValueForPath("3", "a.b.y.q")
-	if ex, _ := m.Exists("a.b.y"); !ex {
+	err := m.SetValueForPath("3", "a.b.y")
+	if ex, _ := m.Exists("a.b"); !ex {
 		vAssert(err != nil, "twice: setting below a path that no longer exists is an error")
 		vAssertUnchangedSince(mark, "twice: and changes nothing")
 	}
